@@ -10,3 +10,64 @@ func (db *RBT) VerifPosition() *arena.MemDBCheckpoint {
 	cp := db.vlog.Checkpoint()
 	return &cp
 }
+
+// VerifCheck walks the whole tree (deleted nodes included) and checks the classic red-black invariants on the real
+// structure: the root is black, no red node has a red child, every root-to-nil path has the same number of black
+// nodes, parent links are consistent, and the in-order key sequence is strictly ascending. It returns "" (all hold) or
+// the first violation, and the in-order keys.
+func (db *RBT) VerifCheck() (string, [][]byte) {
+	var keys [][]byte
+	bad := ""
+	fail := func(s string) {
+		if bad == "" {
+			bad = s
+		}
+	}
+	root := db.getNode(db.root)
+	if root.isNull() {
+		return "", nil
+	}
+	if root.isRed() {
+		fail("red-root")
+	}
+	if !root.up.IsNull() {
+		fail("root-has-parent")
+	}
+	var walk func(x MemdbNodeAddr, depth int) int
+	walk = func(x MemdbNodeAddr, depth int) int {
+		if x.isNull() {
+			return 1
+		}
+		if depth > 200 {
+			fail("too-deep")
+			return 0
+		}
+		l, r := x.getLeft(db), x.getRight(db)
+		if x.isRed() && ((!l.isNull() && l.isRed()) || (!r.isNull() && r.isRed())) {
+			fail("red-red")
+		}
+		if !l.isNull() && l.up != x.addr {
+			fail("parent-link")
+		}
+		if !r.isNull() && r.up != x.addr {
+			fail("parent-link")
+		}
+		hl := walk(l, depth+1)
+		keys = append(keys, append([]byte{}, x.getKey()...))
+		hr := walk(r, depth+1)
+		if hl != hr {
+			fail("black-height")
+		}
+		if x.isBlack() {
+			return hl + 1
+		}
+		return hl
+	}
+	walk(root, 0)
+	for i := 1; i < len(keys); i++ {
+		if string(keys[i-1]) >= string(keys[i]) {
+			fail("bst-order")
+		}
+	}
+	return bad, keys
+}
